@@ -166,6 +166,7 @@ type System struct {
 	probes       int                  // forged-message probes of the validators (forge.go)
 	validated    map[int]map[int]bool // validated[p][m]: p's validator has accepted message m
 	lastProbe    map[int][5]uint64
+	preludeDone  int    // policy prelude broadcasts already made
 	progressSig  string // liveness: the honest participants' (instance, round, phase, finished) vector ...
 	progressAt   int    // ... and the event at which it last changed
 	// liveness accounting
@@ -256,7 +257,7 @@ func (s *System) parks(from, to int) bool {
 }
 
 func (s *System) slowLink(from, to int, ph gpbft.Phase) bool {
-	if s.mode.Policy.Kind != "slow" {
+	if k := s.mode.Policy.Kind; k != "slow" && k != "latestart" {
 		return false
 	}
 	for _, l := range s.mode.Policy.Slow {
@@ -279,7 +280,7 @@ func (s *System) startsLate(i int) bool {
 		if j == i || s.hosts[j].finished {
 			continue
 		}
-		if pol.FlushRound > 0 && s.parts[j].Progress().Round >= pol.FlushRound {
+		if pr := s.parts[j].Progress(); pol.FlushRound > 0 && (pr.Round > pol.FlushRound || (pr.Round == pol.FlushRound && pr.Phase >= pol.FlushPhase)) {
 			return false
 		}
 		waiting = true
@@ -466,6 +467,9 @@ func (s *System) nextTimer() (int, time.Duration, bool) {
 
 // defaultAction is the synchronous, loss-free, Byzantine-silent schedule.
 func (s *System) defaultAction() (action, bool) {
+	if s.preludeDone < len(s.mode.Policy.Prelude) {
+		return action{kind: 'A', spec: s.mode.Policy.Prelude[s.preludeDone]}, true
+	}
 	if s.policyRelease() {
 		return action{kind: 'P'}, true
 	}
@@ -671,6 +675,9 @@ func (s *System) apply(a action) error {
 		if err != nil {
 			return fmt.Errorf("byz %s: %w", a.spec, err)
 		}
+		if s.preludeDone < len(s.mode.Policy.Prelude) && s.mode.Policy.Prelude[s.preludeDone] == a.spec {
+			s.preludeDone++
+		}
 		rec := s.addMsg(s.w.sc.Byz, m, true)
 		s.byzSent++
 		for _, i := range s.w.sc.Honest() {
@@ -869,6 +876,9 @@ func (s *System) key() string {
 	b.WriteString("\nU" + strings.Join(du, " "))
 	if s.mode.Liveness {
 		fmt.Fprintf(&b, "\nL%d,%v", s.stabRound, s.byzSent > 0)
+	}
+	if n := len(s.mode.Policy.Prelude); n > 0 {
+		fmt.Fprintf(&b, "\nprelude%d/%d", s.preludeDone, n)
 	}
 	if s.mode.Policy.Kind != "" {
 		ps := make([]string, 0, len(s.parked))
